@@ -1177,19 +1177,19 @@ import (
 	"github.com/pip-services3-gox/pip-services3-expressions-gox/tokenizers/generic"
 )
 
-// C14 (bounded): every string up to length %(n)d over {a, ', ", e-acute, U+4E2D} and both quote characters:
+// C14 (bounded): every string up to length %(n)d over {a, ', ", e-acute, U+00AB} and the quote characters ', ", U+00AB:
 // decoding never fails; decode(encode(s)) == s; for the expression and CSV states the encoded form placed in a
 // stream (followed by end of input or by a non-quote character) is read back as exactly one token whose
 // decoded value is s.
 func TestVerifReplay(t *testing.T) {
 	states := map[string]tokenizers.IQuoteState{"generic": generic.NewGenericQuoteState(), "expression": ctok.NewExpressionQuoteState(), "csv": csv.NewCsvQuoteState()}
-	abc := []rune{'a', 39, 34, 0xe9, 0x4e2d}
+	abc := []rune{'a', 39, 34, 0xe9, 0xab}
 	var strs []string
 	var gen func(cur []rune, n int)
 	gen = func(cur []rune, n int) { strs = append(strs, string(cur)); if n == 0 { return }; for _, c := range abc { gen(append(cur, c), n-1) } }
 	gen(nil, %(n)d)
 	for name, st := range states {
-		for _, q := range []rune{39, 34} {
+		for _, q := range []rune{39, 34, 0xab} {
 			for _, s := range strs {
 				func() {
 					defer func() { if r := recover(); r != nil { t.Fatalf("%%s state: DecodeString(%%q, %%q) panicked: %%v", name, s, string(q), r) } }()
@@ -1221,7 +1221,7 @@ class QuoteFamily(Family):
 
     @classmethod
     def bounded_source(cls, prog, fname):
-        return 'csv', QUOTE_TEST % {'n': 4}, 'all strings up to length 4 over {a, single quote, double quote, e-acute, U+4E2D} x both quote characters x the three quote states'
+        return 'csv', QUOTE_TEST % {'n': 4}, 'all strings up to length 4 over {a, single quote, double quote, e-acute, U+00AB} x quote characters {single, double, U+00AB} x the three quote states'
 
 
 OPTIONS_TEST = '''package csv_test
@@ -1328,3 +1328,79 @@ class OptionsFamily(TokenizerFamily):
     @classmethod
     def bounded_source(cls, prog, fname):
         return 'csv', OPTIONS_TEST % {'extra': '', 'maxlen': 3}, 'all 128 option sets x every input up to length 3 over an 11-character alphabet (plus 5 longer inputs) x generic and expression tokenizers'
+
+
+COLLECTION_TEST = '''package calculator_test
+
+import (
+	"strings"
+	"testing"
+
+	"github.com/pip-services3-gox/pip-services3-expressions-gox/calculator/functions"
+	"github.com/pip-services3-gox/pip-services3-expressions-gox/calculator/variables"
+	"github.com/pip-services3-gox/pip-services3-expressions-gox/variants"
+)
+
+// C18 (bounded): every sequence of up to 4 operations (Add of names from {"a","A","b","Bc"}, Locate, Remove(i),
+// RemoveByName, Clear, ClearValues) on a variable collection and a function collection, compared with a plain
+// ordered-list model with case-insensitive first-match lookup.
+func TestVerifReplay(t *testing.T) {
+	names := []string{"a", "A", "b", "Bc"}
+	type op struct{ kind int; arg int }
+	var ops []op
+	for i := range names { ops = append(ops, op{0, i}, op{1, i}, op{3, i}) }
+	for i := 0; i < 3; i++ { ops = append(ops, op{2, i}) }
+	ops = append(ops, op{4, 0}, op{5, 0})
+	var seqs [][]op
+	var gen func(cur []op, d int)
+	gen = func(cur []op, d int) { seqs = append(seqs, append([]op{}, cur...)); if d == 0 { return }; for _, o := range ops { gen(append(cur, o), d-1) } }
+	gen(nil, 4)
+	find := func(model []string, n string) int { for i, m := range model { if strings.EqualFold(m, n) { return i } }; return -1 }
+	for _, sq := range seqs {
+		vc := variables.NewVariableCollection()
+		fc := functions.NewFunctionCollection()
+		var vm, fm []string
+		for _, o := range sq {
+			switch o.kind {
+			case 0:
+				vc.Add(variables.NewVariable(names[o.arg], variants.VariantFromInteger(len(vm)))); vm = append(vm, names[o.arg])
+				fc.Add(functions.NewDelegatedFunction(names[o.arg], func(p []*variants.Variant, o variants.IVariantOperations) (*variants.Variant, error) { return variants.EmptyVariant(), nil })); fm = append(fm, names[o.arg])
+			case 1:
+				v := vc.Locate(names[o.arg])
+				if i := find(vm, names[o.arg]); i < 0 { vm = append(vm, names[o.arg]); if !v.Value().IsNull() { t.Fatalf("located new variable is not empty") } } else if v != vc.Get(i) { t.Fatalf("Locate(%q) did not return the first match", names[o.arg]) }
+			case 2:
+				if o.arg < len(vm) { vc.Remove(o.arg); vm = append(append([]string{}, vm[:o.arg]...), vm[o.arg+1:]...) }
+				if o.arg < len(fm) { fc.Remove(o.arg); fm = append(append([]string{}, fm[:o.arg]...), fm[o.arg+1:]...) }
+			case 3:
+				vc.RemoveByName(names[o.arg]); if i := find(vm, names[o.arg]); i >= 0 { vm = append(append([]string{}, vm[:i]...), vm[i+1:]...) }
+				fc.RemoveByName(names[o.arg]); if i := find(fm, names[o.arg]); i >= 0 { fm = append(append([]string{}, fm[:i]...), fm[i+1:]...) }
+			case 4:
+				vc.Clear(); vm = nil; fc.Clear(); fm = nil
+			case 5:
+				vc.ClearValues()
+				for i := 0; i < vc.Length(); i++ { if !vc.Get(i).Value().IsNull() { t.Fatalf("ClearValues left a value") } }
+			}
+			if vc.Length() != len(vm) || fc.Length() != len(fm) { t.Fatalf("ops %v: lengths %d/%d, model %d/%d", sq, vc.Length(), fc.Length(), len(vm), len(fm)) }
+			for i := range vm { if vc.Get(i).Name() != vm[i] { t.Fatalf("ops %v: variable %d is %q, model %q", sq, i, vc.Get(i).Name(), vm[i]) } }
+			for i := range fm { if fc.Get(i).Name() != fm[i] { t.Fatalf("ops %v: function %d is %q, model %q", sq, i, fc.Get(i).Name(), fm[i]) } }
+			for _, n := range []string{"a", "A", "B", "bC", "zz"} {
+				if vc.FindIndexByName(n) != find(vm, n) { t.Fatalf("ops %v: FindIndexByName(%q) = %d, first case-insensitive match is %d", sq, n, vc.FindIndexByName(n), find(vm, n)) }
+				if fc.FindIndexByName(n) != find(fm, n) { t.Fatalf("ops %v: function FindIndexByName(%q) = %d, want %d", sq, n, fc.FindIndexByName(n), find(fm, n)) }
+				if (vc.FindByName(n) == nil) != (find(vm, n) < 0) { t.Fatalf("FindByName(%q)", n) }
+			}
+			all := vc.GetAll(); if len(all) != len(vm) { t.Fatalf("GetAll") }
+			if len(all) > 0 { all[0] = nil; if vc.Get(0) == nil { t.Fatalf("GetAll returned the internal list") } }
+		}
+	}
+}
+'''
+
+
+@family(r'/calculator/variables\.|/calculator/functions\.FunctionCollection|/calculator/functions\.NewFunctionCollection')
+class CollectionFamily(Family):
+    def test_source(self, vals):
+        return 'calculator', COLLECTION_TEST
+
+    @classmethod
+    def bounded_source(cls, prog, fname):
+        return 'calculator', COLLECTION_TEST, 'all sequences of <= 4 operations (Add/Locate/RemoveByName of 4 names, Remove(0..2), Clear, ClearValues) on both collections against an ordered-list model'
